@@ -108,6 +108,7 @@ def main(argv=None) -> int:
     for e in known:
         if e["signature"] not in seen_known:
             print(f"note: known finding not observed in this run (stale or outside this tier's bound): {e['signature']}")
+    unconfirmed = []
     for v in new:
         path = os.path.join(core.VERIF, "replays", f"{prop}-{core.sig_hash(v['signature'])}.json")
         with open(path, "w") as f:
@@ -115,9 +116,12 @@ def main(argv=None) -> int:
                        "cases_with_this_signature": v["count"], "seed": seed, "tier": args.tier,
                        "witness": v["witness"]}, f, indent=1)
         if not args.no_confirm and not _confirm(prop, path, v["signature"]):
-            print(f"HARNESS-ERROR violation {v['signature']} did not reproduce identically in two fresh processes "
-                  f"(replay {path}); treating as harness nondeterminism, not as a finding", file=sys.stderr)
-            return 2
+            # e.g. a witness that only fails after the other cases of its work unit ran in the same process: not reported on its own,
+            # the remaining signatures are still confirmed and reported
+            print(f"note: violation {v['signature']} did not reproduce identically in two fresh processes (replay {path}); not reported",
+                  file=sys.stderr)
+            unconfirmed.append(v["signature"])
+            continue
         print(f"  clause {v['clause']}: {v['detail']}\n  witness: {core.short(v['witness'], 300)}  ({v['count']} cases)")
         print(f"VIOLATION property={prop} replay={path}")
         rc = 1
@@ -140,7 +144,8 @@ def main(argv=None) -> int:
         "distinct": {k: len(v) for k, v in sorted(acc.h.items())},
         "notes": {k: int(v) for k, v in sorted(acc.notes.items())},
         "known_findings_observed": sorted(seen_known),
-        "new_violation_signatures": [v["signature"] for v in new],
+        "new_violation_signatures": [v["signature"] for v in new if v["signature"] not in unconfirmed],
+        "signatures_not_reproduced_in_fresh_processes": list(unconfirmed),
         "source_bound_to": src,
         "pythonhashseed": os.environ.get("PYTHONHASHSEED"),
     }
@@ -152,10 +157,12 @@ def main(argv=None) -> int:
         "coverage": cov,
         "assumptions": desc.get("assumptions", []),
         "wall_s": round(wall, 2),
-        "violations": len(new),
+        "violations": len(new) - len(unconfirmed),
     }
-    os.makedirs(os.path.join(core.VERIF, "evidence"), exist_ok=True)
-    evpath = os.path.join(core.VERIF, "evidence", f"{prop}.json")
+    # a development run against a scratch worktree (VERIF_REPO, never set by the registered commands) must not overwrite the evidence of /repo
+    evdir = os.path.join(core.VERIF, "evidence") if not os.environ.get("VERIF_REPO") else os.path.join("/tmp", "mdmc-scratch-evidence")
+    os.makedirs(evdir, exist_ok=True)
+    evpath = os.path.join(evdir, f"{prop}.json")
     with open(evpath, "w") as f:
         json.dump(ev, f, indent=1, sort_keys=True)
     err = core.validate_evidence(evpath)
@@ -164,7 +171,11 @@ def main(argv=None) -> int:
         return 2
     print(f"[{prop}] states={cov['states']} transitions={cov['transitions']} traces_validated={cov['traces_validated_against_impl']} "
           f"evaluations={cov['evaluations']} nontrivial={cov['distinct_nontrivial']} outcomes={cov['distinct_outcomes']} "
-          f"violations={len(new)} known={len(seen_known)} wall={wall:.1f}s exhaustive={cov['exhaustive']}")
+          f"violations={len(new) - len(unconfirmed)} known={len(seen_known)} wall={wall:.1f}s exhaustive={cov['exhaustive']}")
+    if rc == 0 and unconfirmed:
+        print(f"HARNESS-ERROR {len(unconfirmed)} violation signature(s) were seen during the run but none reproduced in fresh processes; "
+              "treating as harness nondeterminism, not as a finding", file=sys.stderr)
+        return 2
     return rc
 
 
